@@ -163,6 +163,17 @@ def run(ctx):
         if len(key) != 3 or key[0:1] not in UBX_CLASSES:
             continue
         for mode in (0, 1, 2):
+            # no keywords at all: the three forms give the same (empty-payload) frame or the same refusal
+            frames0 = []
+            for form in ((UBX_CLASSES[key[0:1]], name), (key[0], key[1]), (key[0:1], key[1:2])):
+                try:
+                    with impl.quiet():
+                        frames0.append(UBXMessage(form[0], form[1], mode).serialize())
+                except Exception as e:  # pylint: disable=broad-except
+                    frames0.append(type(e).__name__)
+            nadd += 1
+            if len(set(frames0)) != 1:
+                ctx.fail("addressing-forms-differ", {"op": "ADDR", "name": name, "mode": mode, "keywords": "none"}, "identical frames", common.srepr(frames0, 300))
             pl = key[2:3] + bytes(7)
             frames = []
             for form in ((UBX_CLASSES[key[0:1]], name), (key[0], key[1]), (key[0:1], key[1:2])):
